@@ -36,11 +36,26 @@ Value& CHRExpression::value(Context & ctx) const
   case Type::NO_TYPE:
     break;
   case Type::INTEGER:
-    v = Value(new Literal(1, (char)(*val.integer())));
+  {
+    if (val.isNull())
+      break;
+    Integer l = *val.integer();
+    if (l < 0 || l > 255)
+      throw RuntimeError(EXC_RT_OUT_OF_RANGE);
+    v = Value(new Literal(1, (char)l));
     break;
+  }
   case Type::NUMERIC:
-    v = Value(new Literal(1, (char)(*val.numeric())));
+  {
+    if (val.isNull())
+      break;
+    /* the decimal is truncated: NaN fails the test */
+    Numeric d = *val.numeric();
+    if (!(d > -1.0 && d < 256.0))
+      throw RuntimeError(EXC_RT_OUT_OF_RANGE);
+    v = Value(new Literal(1, (char)(Integer)d));
     break;
+  }
   default:
     throw RuntimeError(EXC_RT_FUNC_ARG_TYPE_S, KEYWORDS[oper]);
   }
